@@ -282,29 +282,31 @@ class TaskWorld:
                 else:
                     w.log.append(("handle", d["model"], d["port"], d["arg"], d["hid"], d["kind"]))
             ctx = ("h", d["hid"])
-            while d["pc"] < len(d["script"]):
-                op = d["script"][d["pc"]]
-                if d["cur"] is None:
-                    if op[0] == "send":
-                        key = f"{d['model']}.{op[1]}"
-                        mid = w.new_msg(ctx, ("output", key))
-                        d["mid"] = mid
-                        d["cur"] = it.call_fn("Output", None, "send", [Ptr(w.outputs[key], (), "ref"), w.payload(mid)])
-                    elif op[0] in ("query", "query-first"):
-                        key = f"{d['model']}.{op[1]}"
-                        mid = w.new_msg(ctx, ("requestor", key))
-                        d["mid"] = mid
-                        d["cur"] = it.call_fn("Requestor", None, "send", [Ptr(w.requestors[key], (), "ref"), w.payload(mid)])
-                    elif op[0] == "yield":
-                        d["cur"] = Opaque("YieldOnce", done=[False])
-                    else:
-                        raise Unsupported(f"script op {op}")
-                cell = Cell(d["cur"], tag="opfut")
+            def start(op):
+                """-> sub-operation state: the real port coroutine (or a yield) of one script operation"""
+                if op[0] == "send":
+                    key = f"{d['model']}.{op[1]}"
+                    mid = w.new_msg(ctx, ("output", key))
+                    return dict(op=op, mid=mid, done=False, fut=it.call_fn("Output", None, "send", [Ptr(w.outputs[key], (), "ref"), w.payload(mid)]))
+                if op[0] in ("query", "query-first"):
+                    key = f"{d['model']}.{op[1]}"
+                    mid = w.new_msg(ctx, ("requestor", key))
+                    return dict(op=op, mid=mid, done=False, fut=it.call_fn("Requestor", None, "send", [Ptr(w.requestors[key], (), "ref"), w.payload(mid)]))
+                if op[0] == "yield":
+                    return dict(op=op, mid=None, done=False, fut=Opaque("YieldOnce", done=[False]))
+                raise Unsupported(f"script op {op}")
+
+            def step(s):
+                """poll one sub-operation; True when it is complete"""
+                if s["done"]:
+                    return True
+                cell = Cell(s["fut"], tag="opfut")
                 r = it.call("<T as Future>::poll", [Agg("Pin", [Ptr(cell, (), "ref")]), args[1]])
                 if r.variant != "Ready":
-                    return AM.pending()
+                    return False
+                op = s["op"]
                 if op[0] == "send":
-                    w.log.append(("send-end", d["mid"], ctx))
+                    w.log.append(("send-end", s["mid"], ctx))
                 elif op[0] in ("query", "query-first"):
                     replies = []
                     itv = r.fields[0]
@@ -315,7 +317,22 @@ class TaskWorld:
                             break
                         replies.append(nx.fields[0].concrete())
                     it.drop_value(itv)
-                    w.log.append(("query-end" if op[0] == "query" else "query-first-end", d["mid"], ctx, tuple(replies)))
+                    w.log.append(("query-end" if op[0] == "query" else "query-first-end", s["mid"], ctx, tuple(replies)))
+                s["done"] = True
+                return True
+
+            while d["pc"] < len(d["script"]):
+                op = d["script"][d["pc"]]
+                if d["cur"] is None:
+                    # ["join", opA, opB, ..]: the operations are polled concurrently by the handler (like futures::join!):
+                    # every poll of the handler polls every unfinished one, whichever of them caused the wake-up
+                    d["cur"] = [start(o) for o in op[1:]] if op[0] == "join" else [start(op)]
+                alldone = True
+                for s in d["cur"]:
+                    if not step(s):
+                        alldone = False
+                if not alldone:
+                    return AM.pending()
                 d["cur"] = None
                 d["pc"] += 1
             if d["kind"] != "init":
